@@ -50,7 +50,7 @@ impl<'a> World<'a> {
         rec.ctx
             .args
             .iter()
-            .map(|a| a.to_string_lossy().replace(&root, FAKE_ROOT))
+            .map(|a| a.to_string_lossy().replace(&root, FAKE_ROOT).replace(crate::world::xdg_dir().as_str(), "/antsim-xdg"))
             .collect()
     }
 
@@ -94,7 +94,13 @@ impl<'a> World<'a> {
         };
         put("home_network", dbg(&home));
         put("upnp", dbg(&upnp));
-        put("log_output_dest", format!("Path({})", dbg(&log_base.join(label))));
+        // user mode on the default log location: logs go to a "logs" directory below the service's directory
+        let log_dest = if o.user_mode && o.default_log {
+            PathBuf::from("/antsim-xdg/autonomi/node").join(label).join("logs")
+        } else {
+            log_base.join(label)
+        };
+        put("log_output_dest", format!("Path({})", dbg(&log_dest)));
         put(
             "log_format",
             match o.log_format {
